@@ -523,6 +523,53 @@ CHECKS["C19"] = {
     ],
 }
 
+# ---------------------------------------------------------------------------------------------
+# C07 (reduced): symbolic execution of MethodCall::send / recv (rustc MIR)
+C07_MODELS = [
+    "MIR symbolic execution (smt/mirsym.py, smt/c07.py); callees are replaced by contract models:",
+    "Arc::deref, RwLock::write, unwrap of the lock result, Deref/DerefMut of the guard -> the Connection (no poisoning, no other thread)",
+    "Option::take / is_none / is_some / unwrap -> their definitions on a value whose presence is a z3 variable (unwrap of None = panic event)",
+    "Request::create -> a request with no flags set; serde_json::to_value / to_string / from_slice / from_value -> Ok or Err (free); the "
+    "serialized text remembers the request's flags; the parsed Reply has free continues / error / parameters members",
+    "Write::write_all / flush on the boxed writer -> recorded events, Ok or Err (free); BufRead::read_until -> io error, end of stream "
+    "(nothing appended) or one message (one successor path each)",
+    "Result::map_err, Try::branch, FromResidual::from_residual, Into/From between error types -> the `?` contract, the error value kept",
+    "<ErrorKind as From<Reply>>::from -> a value that remembers the reply it was built from",
+]
+CHECKS["C07"] = {
+    "design_ref": "3/C07",
+    "rule": CHECKS["C19"]["rule"].replace("varlink-certification server process (built from the same copy)",
+                                          "varlink::Connection / MethodCall objects over in-memory stream halves"),
+    "no_common_assumptions": True,
+    "harnesses": [
+        H("c07_send", engine="smt", script="c07.py", timeout=(900, 1800),
+          functions=["varlink::MethodCall::send (rustc MIR; private, reached natively through call / more / oneway / upgrade)"],
+          symbolic="presence of the connection's reader and writer, of the call's reader, writer, request and method (each a z3 "
+                   "variable, a stream half being in at most one place); oneway / more / upgrade; every fallible serialization "
+                   "and I/O call Ok or Err",
+          bounds="all 38 returning paths of the function", stubs=C07_MODELS),
+        H("c07_recv", engine="smt", script="c07.py", timeout=(900, 1800),
+          functions=["varlink::MethodCall::recv (rustc MIR)"],
+          symbolic="presence of the call's and the connection's stream halves; the read gives an I/O error, end of stream or a "
+                   "message; the parsed reply's continues (absent / false / true), error and parameters members; every fallible "
+                   "call Ok or Err",
+          bounds="all 20 returning paths of the function", stubs=C07_MODELS),
+    ],
+    "assumptions": [
+        "reduced claim: one thread. (send) a call object is consumed by its first send and a second send fails with "
+        "MethodCalledAlready; on a connection whose reader or writer is taken the call fails with ConnectionBusy, writes nothing and "
+        "leaves the connection untouched; on a free connection exactly one message is written and flushed, carrying exactly the "
+        "flags of the call mode, after which a oneway call leaves the connection free and any other call owns the stream. (recv) "
+        "without the stream the call fails (IteratorOldReply) and touches nothing; after a reply with continues=true the call "
+        "keeps the stream, after any other reply the stream is back in the connection; the outcome is Ok exactly when the reply "
+        "has no error member, and an error built from the reply otherwise",
+        "outside: other threads sharing the connection (the RwLock is modelled as always available), the mapping from error name "
+        "to ErrorKind variant (<ErrorKind as From<Reply>>::from is a callee here), Iterator::next, Drop, the generated client "
+        "bindings, real sockets",
+        "what is executed is the MIR rustc produces for the two functions, with the callee models listed under stubs",
+    ],
+}
+
 # Duplicate detection / order of appearance in IDL::from_token (harness/parser/c11.rs, not mounted) was attempted
 # twice with Kani and is not part of the claim: see DESIGN.md section 3/C11.
 
